@@ -56,21 +56,23 @@ func newTask(element schema.FlowNodeInterface, activityType ActivityType) constr
 }
 
 func (task *genericTask) run(ctx context.Context) {
+	// closed to withdraw the requests that are pending when the task is cancelled
+	interrupt := make(chan struct{})
 	for {
 		select {
 		case msg := <-task.mch:
 			switch m := msg.(type) {
 			case cancelMessage:
 				task.tracer.Send(CancellationFlowNodeTrace{Node: task.element})
-				if task.active.Load() > 1 {
-					m.response <- false
-				} else {
-					m.response <- true
-					task.active.Swap(0)
-					return
-				}
+				// withdraw the tokens that wait for an answer: their flows end here
+				// and a late answer is ignored; refusing the cancellation while a
+				// request was pending let the normal flow continue after an
+				// interrupting boundary event had fired
+				close(interrupt)
+				interrupt = make(chan struct{})
+				m.response <- true
 			case nextTaskActionMessage:
-				go func() {
+				go func(interrupt chan struct{}) {
 					task.active.Add(1)
 					defer task.active.Add(-1)
 
@@ -96,6 +98,9 @@ func (task *genericTask) run(ctx context.Context) {
 					case <-ctx.Done():
 						task.tracer.Send(CancellationFlowNodeTrace{Node: task.element})
 						return
+					case <-interrupt:
+						m.response <- noAction{}
+						return
 					case out := <-at.out():
 						rsp.err = out.Err
 						rsp.dataObjects = ApplyTaskDataOutput(task.element, out.DataObjects)
@@ -107,7 +112,7 @@ func (task *genericTask) run(ctx context.Context) {
 						response:      rsp,
 						sequenceFlows: allSequenceFlows(&task.outgoing),
 					}
-				}()
+				}(interrupt)
 			}
 		case <-ctx.Done():
 			task.tracer.Send(CancellationFlowNodeTrace{Node: task.element})
